@@ -69,9 +69,13 @@ pub enum Mac {
     TailCseg,
     /// the body's last line is an .org (the argument is made increasing by the renderer)
     TailOrg,
+    /// the argument is a name used as a name: the flag of an .ifdef (flags are case-sensitive)
+    FlagArg,
+    /// parameters behind a `;` that is a character or part of a string, not a comment
+    SemiLit,
 }
 
-const MACS: [Mac; 19] = [Mac::Dw, Mac::Scale, Mac::Regs, Mac::Ldd, Mac::Ten, Mac::Outer, Mac::Mid, Mac::Cond, Mac::Dseg, Mac::Eseg, Mac::Org, Mac::OrgOuter, Mac::EmitOnce, Mac::Maybe, Mac::Probe, Mac::Setter, Mac::Optional, Mac::TailCseg, Mac::TailOrg];
+const MACS: [Mac; 21] = [Mac::Dw, Mac::Scale, Mac::Regs, Mac::Ldd, Mac::Ten, Mac::Outer, Mac::Mid, Mac::Cond, Mac::Dseg, Mac::Eseg, Mac::Org, Mac::OrgOuter, Mac::EmitOnce, Mac::Maybe, Mac::Probe, Mac::Setter, Mac::Optional, Mac::TailCseg, Mac::TailOrg, Mac::FlagArg, Mac::SemiLit];
 
 enum BL {
     Text(&'static str),
@@ -100,13 +104,15 @@ impl Mac {
             Mac::Optional => "m_opt",
             Mac::TailCseg => "m_tailcseg",
             Mac::TailOrg => "m_tailorg",
+            Mac::FlagArg => "m_flagarg",
+            Mac::SemiLit => "m_semilit",
         }
     }
     fn nparams(self) -> usize {
         match self {
-            Mac::Dw | Mac::Scale | Mac::Dseg | Mac::Eseg | Mac::Org | Mac::OrgOuter | Mac::Maybe | Mac::TailCseg | Mac::TailOrg => 1,
+            Mac::Dw | Mac::Scale | Mac::Dseg | Mac::Eseg | Mac::Org | Mac::OrgOuter | Mac::Maybe | Mac::TailCseg | Mac::TailOrg | Mac::FlagArg => 1,
             Mac::EmitOnce | Mac::Probe | Mac::Setter => 0,
-            Mac::Ldd | Mac::Outer | Mac::Mid | Mac::Cond | Mac::Optional => 2,
+            Mac::Ldd | Mac::Outer | Mac::Mid | Mac::Cond | Mac::Optional | Mac::SemiLit => 2,
             Mac::Regs => 3,
             Mac::Ten => 10,
         }
@@ -142,6 +148,8 @@ impl Mac {
             Mac::Probe => vec![BL::Text(".ifdef PROBE_FLAG"), BL::Text("ldi r28, 1"), BL::Text(".else"), BL::Text("ldi r28, 2"), BL::Text(".endif")],
             Mac::Setter => vec![BL::Text(".define PROBE_FLAG"), BL::Text("ldi r29, 7")],
             Mac::Optional => vec![BL::Text(".if @0 > 5"), BL::Text("ldi r29, low(@1) ; uses @1"), BL::Text(".endif"), BL::Text("ldi r30, low(@0) // not @1")],
+            Mac::FlagArg => vec![BL::Text(".ifdef @0"), BL::Text("ldi r28, 5"), BL::Text(".else"), BL::Text("ldi r28, 6"), BL::Text(".endif")],
+            Mac::SemiLit => vec![BL::Text(".db ';', low(@1)"), BL::Text(".db \"k;\", low(@0)"), BL::Text("cpi r16, ';' ; a comment with @1")],
             Mac::TailCseg => vec![BL::Text(".eseg"), BL::Text(".db @0"), BL::Text(".cseg")],
             Mac::TailOrg => vec![BL::Text("ldi r24, 3"), BL::Text(".org @0")],
             Mac::Org => vec![BL::Text("ldi r24, 1"), BL::Text(".org @0"), BL::Text("ldi r24, low(@0)")],
@@ -331,6 +339,8 @@ impl MacModel {
         m.insert(Mac::Optional, vec![vec![e("9"), e("3")], vec![e("2")], vec![e("(2+3)")], vec![e("0"), e("77")]]);
         m.insert(Mac::TailCseg, vec![vec![e("0x21")], vec![e("1+1")]]);
         m.insert(Mac::TailOrg, vec![vec![e("0")]]);
+        m.insert(Mac::FlagArg, vec![vec![raw("FeatureX")], vec![raw("OtherFlag")], vec![raw("featurex")]]);
+        m.insert(Mac::SemiLit, vec![vec![e("1"), e("2")], vec![e("0x10"), e("'a'")]]);
         m.insert(Mac::Org, vec![vec![e("0")]]);
         m.insert(Mac::OrgOuter, vec![vec![e("0")]]);
         MacModel { argsets: m }
@@ -395,7 +405,7 @@ pub struct Rendered {
 
 impl MacModel {
     pub fn render(&self, trace: &[Act]) -> Rendered {
-        let prologue = ".equ k_mac = 7\n";
+        let prologue = ".equ k_mac = 7\n.define FeatureX\n";
         let mut program = String::from(prologue);
         let mut exp_lines: Vec<String> = vec![];
         let mut ok = true;
@@ -486,7 +496,12 @@ pub fn run(tier: Tier) -> i32 {
     let mac_use: Mutex<BTreeMap<String, u64>> = Mutex::new(BTreeMap::new());
     let samples: Mutex<Vec<serde_json::Value>> = Mutex::new(vec![]);
     let alphabet = m.actions(&m.init()).len();
-    let traces = mc::conform(&m, &ex, k, |trace| {
+    // quick tier: the second extension step runs over one representative action per macro and kind
+    // (definition in the first letter case, call with the first argument set, the failing calls,
+    // a plain line); the thorough tier over the whole alphabet
+    let thorough = tier.thorough();
+    let keep = move |d: usize, a: &Act| -> bool { thorough || d == 0 || matches!(a, Act::Def(_, 0) | Act::Call(_, 0, 0) | Act::CallShort(_) | Act::CallUndefined | Act::Plain) };
+    let traces = mc::conform_filtered(&m, &ex, k, &keep, |trace| {
         let r = m.render(trace);
         let o1 = sut::build_str(&r.program);
         for f in r.features.iter() {
@@ -685,7 +700,7 @@ pub fn run(tier: Tier) -> i32 {
     let distinct = outcomes.lock().unwrap().len();
     rep.guard(n_ok.load(Ordering::Relaxed) > 1000 && n_err.load(Ordering::Relaxed) > 1000, "need both Ok and Err outcomes");
     rep.guard(distinct > 300, "fewer than 300 distinct observed images");
-    rep.guard(mac_use.lock().unwrap().len() >= 22, "not every macro family / feature was exercised");
+    rep.guard(mac_use.lock().unwrap().len() >= 24, "not every macro family / feature was exercised");
     for s in samples.into_inner().unwrap() {
         rep.sample(|| s);
     }
@@ -696,7 +711,7 @@ pub fn run(tier: Tier) -> i32 {
         "transitions": ex.transitions,
         "traces_validated_against_impl": traces,
         "state_cover_size": ex.states,
-        "bound": {"N1_model_depth": n1, "k_extension": k, "alphabet_at_initial_state": alphabet},
+        "bound": {"N1_model_depth": n1, "k_extension": k, "alphabet_at_initial_state": alphabet, "second_extension_step": if thorough { "whole alphabet" } else { "one representative action per macro and kind" }},
         "exhaustive": true,
         "caps_hit": [],
         "distinct_observed_outcomes": distinct,
